@@ -382,7 +382,7 @@ pub fn check(tier: &str, seed: u64) -> i32 {
         return 2;
     }
     let quick = tier != "thorough";
-    let (k, n, chunk) = if quick { (4u64, 24_000u64, 1500u64) } else { (16u64, 400_000u64, 5000u64) };
+    let (k, n, chunk) = if quick { (6u64, 60_000u64, 2500u64) } else { (16u64, 400_000u64, 5000u64) };
     println!("VERIF_SEED={seed} property=C14 tier={tier} hash_seeds={k} workloads={n}");
     let hash_seeds: Vec<u64> = (0..k).map(|i| mix(seed, 1000 + i) % 1_000_000_007).collect();
 
